@@ -52,6 +52,19 @@ type User struct {
 // UserOT is a User that additionally supports TOTP replay protection.
 type UserOT struct{ *User }
 
+// UserNA / UserNAOT are the same users for an application whose user type has no
+// arbitrary-values support: the two methods of authboss.ArbitraryUser are shadowed by
+// methods of another signature, so the library's type assertion fails.
+type UserNA struct{ *User }
+
+func (UserNA) GetArbitrary(struct{}) {}
+func (UserNA) PutArbitrary(struct{}) {}
+
+type UserNAOT struct{ UserOT }
+
+func (UserNAOT) GetArbitrary(struct{}) {}
+func (UserNAOT) PutArbitrary(struct{}) {}
+
 func (u UserOT) GetTOTPLastCode() string  { return u.User.TOTPLastCode }
 func (u UserOT) PutTOTPLastCode(s string) { u.User.TOTPLastCode = s }
 
@@ -236,6 +249,7 @@ type Store struct {
 	tokens   map[string][]string
 	B        *Backend
 	OneTime  bool // hand out UserOT (TOTP replay protection)
+	NoArb    bool // hand out users that do not implement authboss.ArbitraryUser
 	EmailPID bool // PID is the e-mail address
 }
 
@@ -244,7 +258,12 @@ func NewStore(b *Backend) *Store {
 }
 
 func (s *Store) wrap(u *User) authboss.User {
-	if s.OneTime {
+	switch {
+	case s.OneTime && s.NoArb:
+		return UserNAOT{UserOT{u}}
+	case s.NoArb:
+		return UserNA{u}
+	case s.OneTime:
 		return UserOT{u}
 	}
 	return u
@@ -256,6 +275,10 @@ func unwrap(u authboss.User) *User {
 		return v
 	case UserOT:
 		return v.User
+	case UserNA:
+		return v.User
+	case UserNAOT:
+		return v.UserOT.User
 	}
 	return nil
 }
